@@ -498,4 +498,64 @@ def setKey (kv : List (Nat × UVal)) (k : Nat) (v : UVal) : List (Nat × UVal) :
 def mutate (σ : Store) (l : Loc) (k : Nat) (v : UVal) : Store :=
   write σ l (.node (setKey (readNode σ.heap l) k v))
 
+/-! ### Describe / Meta CHECKS: the registry-writing OnAttach callbacks (C12)
+
+  `gozod.Describe(d)` / `gozod.Meta(m)` build checks whose OnAttach is a read-modify-write of the target schema's
+  `core.GlobalRegistry` entry (internal/checks/metadata.go).  `AddCheck` does not run OnAttach; the converter does
+  (`jsonschema.annotatedInternals`), and for these two check kinds against the LIVE schema — every other callback
+  gets the scratch copy.  So a conversion writes the registry.  The entry is modelled in full (the coarse `Cell.reg`
+  code of the store only says whether there is one): strings and example values are ids, `0` = the empty string. -/
+
+structure GMeta where
+  id : Nat
+  title : Nat
+  descr : Nat
+  examples : List Nat
+deriving DecidableEq, Repr
+
+def GMeta.empty : GMeta := ⟨0, 0, 0, []⟩
+
+inductive MetaCheck
+  | describe (d : Nat)       -- checks.Describe: `existing.Description = description` (also when empty)
+  | gmeta (m : GMeta)        -- checks.Meta: non-empty ID/Title/Description replace; non-empty Examples replace
+deriving DecidableEq, Repr
+
+/-- what one callback assigns: per field of the entry, `some v` = assigned, `none` = left as it is -/
+structure MetaSet where
+  id : Option Nat
+  title : Option Nat
+  descr : Option Nat
+  examples : Option (List Nat)
+deriving DecidableEq, Repr
+
+def nz (n : Nat) : Option Nat := if n = 0 then none else some n
+
+def MetaCheck.sets : MetaCheck → MetaSet
+  | .describe d => ⟨none, none, some d, none⟩
+  | .gmeta m => ⟨nz m.id, nz m.title, nz m.descr, if m.examples.isEmpty then none else some m.examples⟩
+
+def GMeta.apply (e : GMeta) (s : MetaSet) : GMeta :=
+  ⟨s.id.getD e.id, s.title.getD e.title, s.descr.getD e.descr, s.examples.getD e.examples⟩
+
+/-- one OnAttach callback: `existing, _ := GlobalRegistry.Get(s)`; assign; `GlobalRegistry.Add(s, existing)` -/
+def attachMeta (e : Option GMeta) (c : MetaCheck) : Option GMeta :=
+  some ((e.getD GMeta.empty).apply c.sets)
+
+/-- the registry-writing callbacks of one schema's checks, in check order, as `annotatedInternals` runs them -/
+def annotateEntry (pre : Option GMeta) (cks : List MetaCheck) : Option GMeta := cks.foldl attachMeta pre
+
+/-- `core.GlobalRegistry` content: schema identity ↦ entry -/
+abbrev MReg := Loc → Option GMeta
+
+/-- The registry part of `ToJSONSchema(s)` for one visited schema `s` whose checks are `readArr σ.heap s.checks`
+    (`mc` tells which check ids are Describe/Meta checks and what they carry). -/
+def convertReg (mc : Nat → Option MetaCheck) (σ : Store) (r : MReg) (s : Schema) : MReg :=
+  fun l => if l = s.self then annotateEntry (r l) ((readArr σ.heap s.checks).filterMap mc) else r l
+
+/-- The variant of the callback that MERGES examples (appends those not yet listed; values that cannot be compared
+    with `==` — ids ≥ `cmpBound` — are always appended).  Not what the code does: kept to show what idempotence
+    of `attachMeta` excludes (`Proofs/C12.lean`, `merging_examples_not_idempotent`). -/
+def mergeExamples (cmpBound : Nat) (have_ add : List Nat) : List Nat :=
+  add.foldl (fun out x => if x < cmpBound && out.contains x then out else out ++ [x]) have_
+
 end Gozod.Store
